@@ -253,6 +253,10 @@ def run(ctx):
         ix = {'slice': [rng.choice([None, 0, 1, -1, -2]), rng.choice([None, 1, 2, L, -1]), rng.choice([None, 1, 2])], 'mask': [rng.randint(0, 1) for _ in range(L)],
               'idx': [rng.randrange(L) for _ in range(rng.randint(1, 3))]}[kind]
         do(ctx, 'C20.poly_index', ['torch', terms, kind, ix], nontrivial=('b20', it))
+    for it in range(int(40 * B)):
+        n = rng.randint(2, 5)
+        do(ctx, 'C18.diag_pauli', ['torch', [gen.rstr(rng, n, nonzero=True), rng.choice([0, 2])], rng.randrange(n), rng.random() < 0.5, rng.choice(['orig', 'compiled', 'copy', 'compiled_copy'])],
+           nontrivial=('b18', it))
     if not getattr(ctx, 'is_worker', False):
         do(ctx, 'C16.chi2_product', ['torch', 14400 if ctx.tier == 'quick' else 144000, 15], nontrivial='b16')
     if not getattr(ctx, 'is_worker', False):
